@@ -231,7 +231,8 @@ def cells(tier, seed):
                 continue                                  # Regularized* / LMRF pairs: stateful interface only
             for producer in PR.PRODUCERS:
                 yield {"kind": "producer", "iface": iface, "fam": fam, "key": key, "producer": producer, "cat": k,
-                       "dims": [3] if quick else [2, 3], "priors": NEAR_PRIORS[1:] if quick else NEAR_PRIORS}
+                       "dims": [3] if quick else [2, 3],
+                       "priors": [list(q) for q in (NEAR_PRIORS[1:] if quick else NEAR_PRIORS)]}
     for fam in DIRECT:
         yield {"kind": "direct", "fam": fam, "cat": k, "n": 3 if quick else 5}
 
@@ -464,6 +465,15 @@ def _eval_supported(cell, res):
     comp = IFACE_NAME[iface]
     accepted = judged = 0
     first = True
+    # two objects in one process: a GMRF of the same dimension, order and bc on the OTHER grid layout (1-D with N*N nodes
+    # <-> 2-D N x N) is created before the members of this cell are built, and is itself a judged member after them
+    other = _other_layout(cell) if cell["kind"] == "gmrf" else None
+    if other is not None:
+        try:
+            _gmrf_target(cell["bc"], cell["order"], other[0], other[1], np.zeros(n), np.zeros(n), 1.0, 1.0)
+            res.count("other-layout-decoy-built")
+        except Exception as e:
+            res.outcomes.add("decoy-refused:" + type(e).__name__)
     generic_failed = set()      # kinds of mismatch already seen with generic data: special data add no new signature
     special_first = {}
     generic_ok = 0
@@ -551,12 +561,56 @@ def _eval_supported(cell, res):
             if res.sample is None:
                 res.sample = {"prior": [a, r], "residual": rname, "captured_shape": cap[0]["shape_param"],
                               "captured_scale": cap[0]["scale"], "t_grid": GRID, "target_logd": tl}
+    if other is not None:
+        # ... and the other layout as a member, built AFTER this cell's members (both orders inside one cell)
+        mean = refs.dyadic_vec(n, cell["cat"] + 1, scale=0.125)
+        data = refs.dyadic_vec(n, cell["cat"], scale=0.25)
+        for (a, r) in (GAMMA_PARAMS[0], GAMMA_PARAMS[4], GAMMA_PARAMS[8]):
+            res.state("other-layout|a=%g,r=%g" % (a, r))
+            try:
+                target = _gmrf_target(cell["bc"], cell["order"], other[0], other[1], mean, data, a, r)
+                tl = _target_logd(target, GRID)
+                res.transitions += len(GRID)
+                cap, outs, others = _run_conjugate(target, iface)
+                res.transitions += len(outs)
+            except HarnessError as e:
+                res.fail("C10|%s|%s|other-randomness" % (comp, fam),
+                         "conjugate step issued a random request other than numpy.random.gamma: %s" % e)
+                continue
+            except Exception as e:
+                res.refused += 1
+                res.outcomes.add("other-layout-refused:" + type(e).__name__)
+                continue
+            if not np.all(np.isfinite(tl)) or len(cap) != 1:
+                res.count("other_layout_unjudged")
+                continue
+            res.evaluations += 1
+            judged += 1
+            res.count("other-layout-judged")
+            ok, what, info = _judge(cap[0], tl, GRID, tol)
+            if not ok:
+                res.fail("C10|%s|%s|%s" % (comp, fam, what),
+                         "distribution drawn from, Gamma(shape=%r, rate=%r), is not proportional to the target's own density "
+                         "in the hyper-parameter: log-ratio varies over t=%s by %s (GMRF on the %d-D layout with %d nodes, "
+                         "order %d, built after GMRFs of the same dimension on the %d-D layout; prior Gamma(%g,%g))" %
+                         (info.get("shape"), info.get("rate"), GRID, np.round(info.get("diff", 0), 6), other[0], n,
+                          cell["order"], cell["pd"], a, r),
+                         focus={"prior": [a, r], "layout": "%d-D" % other[0], "after_layout": "%d-D" % cell["pd"]}, **info)
+                break
     res.traces += 1
     res.count("accepted", accepted)
     res.count("judged", judged)
     if judged == 0:
         res.nontrivial = False
     return res
+
+
+def _other_layout(cell):
+    """(pd, N) of the grid with the same number of nodes on the other layout: 2-D N x N <-> 1-D with N*N nodes."""
+    if cell["pd"] == 2:
+        return (1, cell["N"] ** 2)
+    m = int(round(math.sqrt(cell["N"])))
+    return (2, m) if (m >= 2 and m * m == cell["N"]) else None
 
 
 # ----------------------------------------------------------------------------------------
@@ -647,6 +701,8 @@ def _unsupported_parts(case, n, k, a, b):
 def _parts(case, n, k, a, b):
     """A member of the refusal alphabet is a name (fixed catalogue) or a dict (near-miss family, see _near_parts)."""
     if isinstance(case, dict):
+        if "fun" in case:
+            return _prod_parts(case, n, k, a, b)
         return _near_parts(case, n, k, a, b)
     return _unsupported_parts(case, n, k, a, b)
 
@@ -1004,6 +1060,231 @@ def _eval_near(cell, res):
         res.nontrivial = False
     if res.sample is None:
         res.sample = {"near_miss": base, "accepted": False, "routes": ROUTES, "outcomes": sorted(res.outcomes)}
+    return res
+
+
+# ----------------------------------------------------------------------------------------
+# HOW the callable was produced  x  what the process has seen before (history)
+# ----------------------------------------------------------------------------------------
+def _prod_parts(spec, n, k, a, b):
+    """(hyper-prior, likelihood distribution, data) of a member given as a live callable spec["fun"]."""
+    from cuqi.distribution import Gamma, Gaussian, GMRF, LMRF
+    from cuqi.implicitprior import RegularizedGaussian
+    fam, key, f = spec["fam"], spec["key"], spec["fun"]
+    mean = refs.dyadic_vec(n, k + 1, scale=0.125)
+    data = refs.dyadic_vec(n, k, scale=0.25)
+    s = Gamma(a, b, name="s")
+    if fam == "gauss":
+        y = Gaussian(mean, name="y", **{key: f})
+    elif fam == "gmrf":
+        y = GMRF(mean, prec=f, bc_type="zero", order=1, geometry=n, name="y")
+    elif fam == "reg-gauss":
+        y = RegularizedGaussian(mean, constraint="nonnegativity", name="y", **{key: f})
+    elif fam == "lmrf":
+        y = LMRF(0, scale=f, geometry=n, name="y")
+    else:
+        raise ValueError(fam)
+    return s, y, data
+
+
+def _prod_offer(iface, cls, route, spec, n, k, a, b):
+    """Offer one posterior through one acceptance route and, when a sampler object then holds it, make one step.
+    Returns (verdict, captured Gamma requests, target): verdict in {refused, refused-at-step, listed, accepted,
+    other-randomness}."""
+    if iface == "legacy":
+        try:
+            target = _unsupported_target(spec, n, k, a, b)
+            cap, outs, others = _run_conjugate(target, "legacy")
+        except HarnessError as e:
+            return "other-randomness", str(e), None
+        except Exception as e:
+            return "refused", type(e).__name__, None
+        return "accepted", cap, target
+    try:
+        smp = _route_accept(route, cls, spec, n, k, a, b)
+    except Exception as e:
+        return "refused", type(e).__name__, None
+    if smp is True:
+        return "listed", None, None
+    cap = []
+    st = Stream(gamma=lambda rec, i: (cap.append(rec), DRAW)[1])
+    try:
+        with st.installed():
+            smp.step()
+    except HarnessError as e:
+        return "other-randomness", str(e), None
+    except Exception as e:
+        return "refused-at-step", type(e).__name__, None
+    return "accepted", cap, smp.target
+
+
+def _prod_key(out):
+    """What of an offer's outcome must not depend on the history: refused / listed / accepted with these Gamma parameters."""
+    verdict, cap, _ = out
+    if verdict in ("refused", "refused-at-step"):
+        return ("refused",)
+    if verdict == "accepted":
+        return ("accepted",) + tuple((float(np.ravel(r["shape_param"])[0]), float(np.ravel(r["scale"])[0])) for r in cap)
+    return (verdict,)
+
+
+def _prod_same(u, v):
+    if u[0] != v[0] or len(u) != len(v):
+        return False
+    return all(close(x[0], y[0], rtol=1e-12) and close(x[1], y[1], rtol=1e-12) for x, y in zip(u[1:], v[1:]))
+
+
+def _eval_producer(cell, res):
+    """One (interface, documented pair, parameter, way the callable was produced): dimension x prior x acceptance route x
+    history x member {supported, 3 unsupported siblings}.  Histories: fresh (a family of callables never shown to the
+    library in this process); the unsupported member offered AFTER its supported sibling - same general function /
+    factory / class - was accepted and drawn for by another sampler; the supported member offered AFTER its unsupported
+    sibling was offered (refused).  Oracles: the statement's (supported and accepted: captured Gamma exact; unsupported:
+    refused, or exact, or - approximate pairs - not accepted) in every history, and: the verdict (refused / listed /
+    accepted with these Gamma parameters) of a member through a route is the same in every history."""
+    import cuqi
+    iface, fam, key, producer, k = cell["iface"], cell["fam"], cell["key"], cell["producer"], cell["cat"]
+    recip = key in ("cov", "scale")
+    if iface == "legacy":
+        cls, comp, routes = None, IFACE_NAME["legacy"], ["ctor+step"]
+    else:
+        cls = cuqi.experimental.mcmc.ConjugateApprox if fam == "lmrf" else cuqi.experimental.mcmc.Conjugate
+        comp, routes = "cuqi.experimental.mcmc." + cls.__name__, ROUTES
+    exact_pair = fam in ("gauss", "gmrf")
+    sup_text = "%s=%s" % (key, "1/s" if recip else "s")
+    members = [(sup_text, PR.SUPPORTED, True)] + [(nm, tuple(float(v) for v in cpe), False) for nm, cpe in PROD_SIBLINGS[(fam, key)]]
+    gsup = PR.reference(recip, *PR.SUPPORTED)
+    cid = "%s|%s|%s|%s" % (iface, fam, key, producer)
+    sup_accepted = 0
+
+    def make(family, cpe):
+        f = family.member(*cpe)
+        g = PR.reference(recip, *cpe)
+        for t in GRID:                    # the callable handed to the library IS the intended member of the family
+            if not close(float(f(t)), float(g(t)), rtol=1e-12):
+                raise HarnessError("producer %s built another function than c,p,e=%r" % (producer, cpe))
+        return f
+
+    def judge(out, mname, supported, hist, route, focus, fresh_failed):
+        """The statement's oracle for one offer.  Returns True when a failure was reported."""
+        verdict, cap, target = out
+        suffix = "" if (hist == "fresh" or fresh_failed) else ",history=" + hist
+        where = "route %s, %s, history %s" % (route, PR.PRODUCER_TEXT[producer], hist)
+        if verdict == "other-randomness":
+            res.fail("C10|%s|callable-form|other-randomness" % comp, "%s offered (%s): a random request other than "
+                     "numpy.random.gamma was issued: %s" % (mname, where, cap), focus=focus)
+            return True
+        if verdict in ("refused", "refused-at-step"):
+            res.refused += 1
+            return False
+        if supported:
+            if verdict != "accepted" or not exact_pair:
+                return False
+            sig = "C10|%s|supported-inexact|produced-by=%s%s" % (comp, producer, suffix)
+        else:
+            dev = max(abs(PR.reference(recip, *cpe_of[mname])(t) - gsup(t)) / abs(gsup(t)) for t in GRID)
+            if dev <= NEAR_DECIDED:
+                return False
+            if iface == "legacy":
+                sig = _unsup_signature(comp, mname, iface)     # no structural validation at all: recorded per dependence
+            else:
+                sig = "C10|%s|accepts-unsupported|produced-by=%s%s" % (comp, producer, suffix)
+            if not exact_pair:
+                res.fail(sig, "%s (differs from the supported form by %.3g relative on t=%s) was accepted (%s) by a sampler "
+                         "that is approximate by design: not rejected, and sampled as if it were %s" %
+                         (mname, dev, GRID, where, sup_text), focus=focus)
+                return True
+            if verdict != "accepted":      # listing only: exactness is judged on the other routes
+                return False
+        if not supported:
+            ok = _judge_accepted(res, comp, mname, iface, cap, target, GRID, where, focus, sig=sig)
+            return ok is False or (ok is None and len(cap) != 1)
+        if len(cap) != 1:
+            res.fail("C10|%s|callable-form|request-count" % comp, "%s accepted (%s): %d Gamma requests for one draw" %
+                     (mname, where, len(cap)), focus=focus)
+            return True
+        try:
+            tl = _target_logd(target, GRID)
+            res.transitions += len(GRID)
+        except Exception as e:
+            res.outcomes.add("supported-unjudgeable:" + type(e).__name__)
+            return False
+        if not np.all(np.isfinite(tl)):
+            res.outcomes.add("supported-unjudgeable:nonfinite")
+            return False
+        res.evaluations += 1
+        ok, what, info = _judge(cap[0], tl, GRID, 1e-9)
+        if not ok:
+            res.fail(sig, "%s (%s) accepted (%s): the distribution drawn from, Gamma(shape=%r, rate=%r), is not proportional to "
+                     "the target's own density: log-ratio varies over t=%s by %s [%s]" % (
+                         mname, PR.PRODUCER_TEXT[producer], where, info.get("shape"), info.get("rate"), GRID,
+                         np.round(info.get("diff", 0), 6), what), focus=focus, **info)
+        return not ok
+
+    cpe_of = {nm: cpe for nm, cpe, _ in members}
+    o1_fired = set()
+    names = [nm for nm, _, _ in members]
+    # every family of callables of the whole check gets its own source location (slot)
+    cell_ord = (IFACES.index(iface) * len(PROD_FAMS) + PROD_FAMS.index((fam, key))) * len(PR.PRODUCERS) + PR.PRODUCERS.index(producer)
+    prior_ord = {(float(q[0]), float(q[1])): i for i, q in enumerate(NEAR_PRIORS)}
+    for n in cell["dims"]:
+        for (a, b) in cell["priors"]:
+            for route in routes:
+                fresh, fresh_failed = {}, {}
+                base = "%s|n=%d|a=%g,b=%g|%s" % (cid, n, a, b, route)
+                for hist in PROD_HISTORIES:
+                    for mname, cpe, supported in members:
+                        if hist == "fresh":
+                            todo = [(mname, cpe, supported, None)]
+                        elif hist == "after-accepted-sibling":   # unsupported member after its supported sibling
+                            todo = [] if supported else [(mname, cpe, False, members[0])]
+                        else:                                    # supported member after each unsupported sibling
+                            todo = [(members[0][0], members[0][1], True, (mname, cpe, False))] if not supported else []
+                        for (mn, mc, msup, before) in todo:
+                            slot = cell_ord
+                            for idx, size in ((n, 8), (prior_ord[(float(a), float(b))], len(NEAR_PRIORS)),
+                                              (routes.index(route), len(ROUTES)), (PROD_HISTORIES.index(hist), 3),
+                                              (names.index(mname), 4), (names.index(mn), 4)):
+                                slot = slot * size + idx
+                            family = PR.Family(producer, recip, slot, "%s|%s|%s|%s" % (base, hist, mname, mn))
+                            focus = {"member": mn, "c,p,e": list(mc), "produced_by": producer, "history": hist,
+                                     "route": route, "n": n, "prior": [a, b]}
+                            if before is not None:
+                                pre = _prod_offer(iface, cls, "ctor", {"fam": fam, "key": key, "fun": make(family, before[1])},
+                                                  n, k, a, b)
+                                res.transitions += 1
+                                realised = (pre[0] == "accepted") if before[2] else (pre[0] in ("refused", "refused-at-step"))
+                                res.count("%s:%s" % (hist, "realised" if realised else "sibling-" + pre[0]))
+                                focus["sibling_before"] = {"member": before[0], "c,p,e": list(before[1]), "verdict": pre[0]}
+                            res.state("n=%d,a=%g,b=%g,%s,%s,%s,%s" % (n, a, b, route, hist, mname, mn))
+                            out = _prod_offer(iface, cls, route, {"fam": fam, "key": key, "fun": make(family, mc)}, n, k, a, b)
+                            res.transitions += 1
+                            res.outcomes.add("%s:%s@%s:%s" % (hist, mn, route, out[0]))
+                            if hist == "fresh":
+                                fresh[mn] = _prod_key(out)
+                                fresh_failed[mn] = judge(out, mn, msup, hist, route, focus, False)
+                                if msup and out[0] in ("accepted", "listed"):
+                                    sup_accepted += 1
+                                if msup and out[0] == "accepted" and res.sample is None:
+                                    res.sample = dict(focus, captured_shape=out[1][0]["shape_param"] if out[1] else None,
+                                                      captured_scale=out[1][0]["scale"] if out[1] else None)
+                                continue
+                            failed = judge(out, mn, msup, hist, route, focus, fresh_failed.get(mn, False))
+                            res.evaluations += 1
+                            if failed:
+                                o1_fired.add((mn, hist))    # (one defect, one signature: the other routes add nothing)
+                            if (mn, hist) not in o1_fired and not _prod_same(_prod_key(out), fresh[mn]):
+                                res.fail("C10|%s|verdict-depends-on-history|produced-by=%s,history=%s" % (comp, producer, hist),
+                                         "%s (%s) offered through %s: %s in a fresh history, but %s after its sibling %s from "
+                                         "the same %s had been %s" % (
+                                             mn, PR.PRODUCER_TEXT[producer], route, fresh[mn], _prod_key(out), before[0],
+                                             {"lambda": "script", "def": "script", "partial": "general function",
+                                              "factory": "factory", "method": "class", "callable": "class"}[producer],
+                                             focus["sibling_before"]["verdict"]), focus=focus)
+    res.traces += 1
+    res.count("supported-accepted", sup_accepted)
+    if sup_accepted == 0:
+        res.nontrivial = False
     return res
 
 
@@ -1385,4 +1666,6 @@ def eval_cell(cell):
         return _eval_near(cell, res)
     if cell["kind"] == "name":
         return _eval_name(cell, res)
+    if cell["kind"] == "producer":
+        return _eval_producer(cell, res)
     return _eval_direct(cell, res)
